@@ -95,7 +95,8 @@ def gen_cases(tier: str, seed: int):
                 stmts.append(f"CREATE VIEW V{j} AS SELECT ID, S || {qlit(_lit(r))} AS S2 FROM T1")
             elif x < 0.95 and fail_at is None:
                 fail_at = len(stmts)
-                stmts.append(r.choice(["SELECT * FROM no_such_table", "INSERT INTO T1 VALUES (1, 'a', 'extra')", "SELECT nocol FROM T1"]))
+                stmts.append(r.choice(["SELECT * FROM no_such_table", "INSERT INTO T1 VALUES (1, 'a', 'extra')", "SELECT nocol FROM T1",
+                                       "SELEC 1", "SELECT 1 +", "INSERT INTO T1 VALUES (1,", "SELECT FROM WHERE"]))
             else:
                 stmts.append(r.choice(["BEGIN", "COMMIT", "SELECT COUNT(*) FROM T1"]))
         # rendering plan: separators and decorations
@@ -122,6 +123,9 @@ NOP_STMTS = [
     "SELECT 'please call me' AS X", "SELECT ID AS recall FROM T1 ORDER BY ID", "  call spaced()", "SELECT 'GRANT x' AS G", "INSERT INTO T1 VALUES (9, 'STAGE')",
     "UPDATE T1 SET S = 'AUDIT' WHERE ID = 2", "COMMENT ON TABLE T1 IS 'CALL me'", "ALTER TABLE T1 SET COMMENT = 'GRANT'", "CALL after_comment()", "SELECT COUNT(*) FROM T1", "GRANT SELECT ON T1 TO ROLE r", "delete from T1 where id = 2", "SELECT 'delete' AS D",
 ]
+
+
+SYNTAX_ERRORS = ["SELEC 1", "SELECT 1 +", "INSERT INTO T1 VALUES (1,", "SELECT FROM WHERE"]
 
 
 def _gen_nop(r: random.Random) -> dict:
@@ -208,13 +212,15 @@ def _run_es(case: dict, env: core.Env, fa: Any, fb: Any) -> None:
     except Exception as e:  # noqa: BLE001
         a_exc = core.exc_info(e)
     tag = "with-failing-stmt" if fail_at is not None else "all-ok"
+    if fail_at is not None and case["stmts"][fail_at] in SYNTAX_ERRORS:
+        tag = "with-syntax-error"  # the failing statement does not even parse
     if b_exc is not None:
         env.count("cmp_failing_prefix")
         if a_exc is None:
             env.witness("C16/failing-statement/execute_string-did-not-raise", f"{text!r}: one-by-one raised {b_exc}")
             return
         if (a_exc["cls"], a_exc.get("errno"), a_exc.get("sqlstate")) != (b_exc[1]["cls"], b_exc[1].get("errno"), b_exc[1].get("sqlstate")):
-            env.witness("C16/failing-statement/different-exception", f"{text!r}: {a_exc} vs one-by-one {b_exc[1]}")
+            env.witness("C16/failing-statement/different-exception" + ("/syntax-error" if tag == "with-syntax-error" else ""), f"{text!r}: {a_exc} vs one-by-one {b_exc[1]}")
             return
     elif a_exc is not None:
         env.witness(f"C16/execute_string-raised/{a_exc['cls']}", f"{text!r}: {a_exc}; one-by-one succeeded"[:900])
